@@ -79,6 +79,11 @@ def gen_cases(rng, tier):
     for a in (None, 600, 7000, 31000):
         cases.append(["x%d" % n, "c12", "uas", "tcp", "0:inv,1000:accept" + (",%d:ack" % (1000 + a) if a is not None else "") + ",41000:wait", "1", "ok2xx", "1000",
                       "-" if a is None else str(1000 + a)]); n += 1
+    # a caller whose branch has no magic cookie: its ACK is matched onto the INVITE's server transaction (RFC 3261 17.2.3) and still
+    # reaches the usage - the 2xx stops being retransmitted
+    for a in (600, 7000, None):
+        cases.append(["x%d" % n, "c12", "uas", "lbranch", "0:inv,1000:accept" + (",%d:ack" % (1000 + a) if a is not None else "") + ",41000:wait", "1", "ok2xx", "1000",
+                      "-" if a is None else str(1000 + a)]); n += 1
     # ---- reliable provisional schedule
     rel = hx("Supported: 100rel\r\n")
     pts = grid(G1) if tier == "thorough" else grid(G1)[::2]
